@@ -38,6 +38,20 @@ RFloor(a) == a[1] \div a[2]                   \* TLC's \div floors towards -infi
 \* |a - b| <= tol
 RNear(a, b, tol) == RLeq(RAbs(RSub(a, b)), tol)
 
+\* overflow-free comparison p/q <= r/s (q, s > 0) by the Euclidean algorithm: used to compare a
+\* value recorded from the real code (fixed point) with an exact value whose denominator is unrelated
+RECURSIVE SLeqN(_, _, _, _)
+SLeqN(p, q, r, s) ==
+  LET fp == p \div q  fr == r \div s  mp == p % q  mr == r % s
+  IN IF fp < fr THEN TRUE
+     ELSE IF fp > fr THEN FALSE
+     ELSE IF mp = 0 THEN TRUE
+     ELSE IF mr = 0 THEN FALSE
+     ELSE SLeqN(s, mr, q, mp)            \* mp/q <= mr/s  <=>  s/mr <= q/mp
+SLeq(a, b) == SLeqN(a[1], a[2], b[1], b[2])
+\* |n/den - y| <= t/den   for an integer n over den (fixed point) and any rational y
+FxNear(n, t, den, y) == SLeq(<<n - t, den>>, y) /\ SLeq(y, <<n + t, den>>)
+
 \* sequences of rationals
 RECURSIVE RSumSeq(_)
 RSumSeq(s) == IF s = <<>> THEN Zero ELSE RAdd(Head(s), RSumSeq(Tail(s)))
